@@ -21,7 +21,7 @@ Unary1(ins) == CASE ins[1] = "ufunc1" -> UfName(ins[4]) [] ins[1] = "cabs" -> "a
 
 (* ---- the result is the same expression evaluated cell by cell ---------------------- *)
 C03_Cellwise ==
-   (prog # <<>> /\ obs.ok /\ obs.reg.vx) =>
+   (prog # <<>> /\ obs.ok /\ obs.reg.vx /\ HasVals(OpA) /\ HasVals(OpB)) =>
       LET ins == LastIns  r == obs.reg  f == SelfOf(OpA, OpB)
       IN /\ Cellwise2(ins[1]) =>
               /\ r.m = f.m /\ r.nv = Max2(ONv(OpA), ONv(OpB)) /\ Len(r.val) = NCellsM(f.m)
@@ -32,7 +32,7 @@ C03_Cellwise ==
               /\ \A k \in DOMAIN r.val : \A c \in 1 .. r.nv : r.val[k][c] = GUn(Unary1(ins), OpA.val[k][c])
          /\ ins[1] = "dot" =>
               /\ r.m = f.m /\ r.nv = 1
-              /\ \A k \in DOMAIN r.val : r.val[k][1] = GSum([l \in 1 .. f.nv |-> GMul(BcAt(OpA, k, l), BcAt(OpB, k, l))])
+              /\ \A k \in DOMAIN r.val : r.val[k][1] = GSum([l \in 1 .. Max2(ONv(OpA), ONv(OpB)) |-> GMul(BcAt(OpA, k, l), BcAt(OpB, k, l))])
          /\ ins[1] = "cross" =>
               /\ r.m = f.m /\ r.nv = 3
               /\ \A k \in DOMAIN r.val : \A c \in 1 .. 3 :
@@ -78,12 +78,13 @@ Mismatch(op, a, b) ==
    \/ op = "cross" /\ (a.nv # 3 \/ b.nv # 3)
 C03_RejectMismatch ==
    (prog # <<>> /\ LastIns[1] \in TwoFieldOps /\ LastIns[3] > 0 /\ IsField(OpA) /\ IsField(OpB)) =>
-      (~obs.ok <=> Mismatch(LastIns[1], OpA, OpB))
+      (Mismatch(LastIns[1], OpA, OpB) => ~obs.ok)
 (* anything the machine rejects is a mismatch of component counts or meshes *)
 C03_RejectOnlyMismatch ==
    (prog # <<>> /\ ~obs.ok) =>
       \/ IsField(OpA) /\ IsField(OpB) /\ Mismatch(LastIns[1], OpA, OpB)
       \/ \E y \in {OpA, OpB} : IsVec(y) /\ (Len(y.val) # SelfOf(OpA, OpB).nv \/ (LastIns[1] = "cross" /\ Len(y.val) # 3))
+                                          /\ ~(LastIns[1] = "dot" /\ (Len(y.val) = 1 \/ SelfOf(OpA, OpB).nv = 1))
 
 (* ---- results are fields on the operands' mesh with their own validity object ------- *)
 C03_ResultWellFormed == (prog # <<>> /\ obs.ok) => FieldOK(obs.reg) /\ obs.r = Len(regs)
